@@ -128,7 +128,12 @@ func (es *ExpressionStatement) WriteTo(cw *CodeWriter) {
 	if es.Expression == nil {
 		return
 	}
-	es.Expression.WriteTo(cw)
+	// a statement cannot start with `function` or `{`: that would be a declaration or a block
+	if startsWithFunctionOrObject(es.Expression) {
+		writeParenthesised(cw, es.Expression)
+	} else {
+		es.Expression.WriteTo(cw)
+	}
 	cw.WriteSemi()
 }
 
@@ -140,6 +145,40 @@ func writeParenthesised(cw *CodeWriter, e Expression) {
 	e.WriteTo(cw)
 	cw.DecreaseIndent()
 	cw.WriteRune(')')
+}
+
+// startsWithFunctionOrObject reports whether the first token written for the expression is
+// `function` or `{`.
+func startsWithFunctionOrObject(expr Expression) bool {
+	for {
+		switch e := expr.(type) {
+		case *FunctionExpression, *ObjectLiteral:
+			return true
+		case *BinaryExpression:
+			if e.Left == nil || e.Left.Precedence() < e.Precedence() {
+				return false // nil or parenthesised
+			}
+			expr = e.Left
+		case *PostfixExpression:
+			if e.Left == nil || e.Left.Precedence() < PrecedencePostfix {
+				return false
+			}
+			expr = e.Left
+		case *CallExpression:
+			expr = e.Function
+		case *MemberExpression:
+			expr = e.Object
+		case *AssignmentExpression:
+			expr = e.Left
+		case *CompoundAssignmentExpression:
+			expr = e.Left
+		default:
+			return false
+		}
+		if expr == nil {
+			return false
+		}
+	}
 }
 
 type FunctionDeclaration struct {
